@@ -49,6 +49,8 @@ impl V {
 				let _ = write!(s, "i:{i}");
 			}
 			V::Float(b) => {
+				// every NaN is the same value
+				let b = if f64::from_bits(*b).is_nan() { 0x7ff8000000000000 } else { *b };
 				let _ = write!(s, "f:{b:016x}");
 			}
 			V::Str(x) => {
@@ -599,4 +601,153 @@ pub fn read_msgpack_stream(b: &[u8]) -> Result<Vec<V>, String> {
 		out.push(r.value()?);
 	}
 	Ok(out)
+}
+
+// ------------------------------------------------------------------------------------------
+// Parsing canonical dumps back (used for dumps produced by the out-of-process TOML reader) and
+// locating the leaves at which two values differ.
+// ------------------------------------------------------------------------------------------
+
+pub fn parse_dump(s: &str) -> Option<V> {
+	fn go(b: &[u8], i: &mut usize) -> Option<V> {
+		let tok_end = |b: &[u8], mut j: usize| {
+			while j < b.len() && !matches!(b[j], b' ' | b']' | b'}' | b'=') {
+				j += 1;
+			}
+			j
+		};
+		match *b.get(*i)? {
+			b'n' => {
+				*i += 1;
+				Some(V::Null)
+			}
+			b'T' => {
+				*i += 1;
+				Some(V::Bool(true))
+			}
+			b'F' => {
+				*i += 1;
+				Some(V::Bool(false))
+			}
+			b'[' => {
+				*i += 1;
+				let mut v = vec![];
+				loop {
+					if *b.get(*i)? == b']' {
+						*i += 1;
+						return Some(V::Arr(v));
+					}
+					if b[*i] == b' ' {
+						*i += 1;
+					}
+					v.push(go(b, i)?);
+				}
+			}
+			b'{' => {
+				*i += 1;
+				let mut v = vec![];
+				loop {
+					if *b.get(*i)? == b'}' {
+						*i += 1;
+						return Some(V::Map(v));
+					}
+					if b[*i] == b' ' {
+						*i += 1;
+					}
+					let k = go(b, i)?;
+					if *b.get(*i)? != b'=' {
+						return None;
+					}
+					*i += 1;
+					let x = go(b, i)?;
+					v.push((k, x));
+				}
+			}
+			c @ (b'i' | b'f' | b's' | b'b' | b'g' | b'o') => {
+				let j = tok_end(b, *i + 2);
+				let body = std::str::from_utf8(&b[*i + 2..j]).ok()?;
+				*i = j;
+				Some(match c {
+					b'i' => V::Int(body.parse().ok()?),
+					b'f' => V::Float(u64::from_str_radix(body, 16).ok()?),
+					b's' => V::Str(String::from_utf8(crate::util::unhex(body)).ok()?),
+					b'b' => V::Bytes(crate::util::unhex(body)),
+					b'g' => V::F32(u32::from_str_radix(body, 16).ok()?),
+					_ => V::Other(String::from_utf8(crate::util::unhex(body)).ok()?),
+				})
+			}
+			_ => None,
+		}
+	}
+	let mut i = 0;
+	let v = go(s.as_bytes(), &mut i)?;
+	(i == s.len()).then_some(v)
+}
+
+/// Collects (path, got, want) for every position where the two values differ (leaf or shape).
+pub fn diff_leaves(got: &V, want: &V, path: &str, out: &mut Vec<(String, V, V)>) {
+	if out.len() >= 40 {
+		return;
+	}
+	match (got, want) {
+		(V::Arr(a), V::Arr(b)) if a.len() == b.len() => {
+			for (i, (x, y)) in a.iter().zip(b.iter()).enumerate() {
+				diff_leaves(x, y, &format!("{path}[{i}]"), out);
+			}
+		}
+		(V::Map(a), V::Map(b)) if a.len() == b.len() => {
+			for (i, ((ka, va), (kb, vb))) in a.iter().zip(b.iter()).enumerate() {
+				diff_leaves(ka, kb, &format!("{path}.key{i}"), out);
+				diff_leaves(va, vb, &format!("{path}.val{i}"), out);
+			}
+		}
+		(a, b) => {
+			if a.dump() != b.dump() {
+				out.push((path.to_string(), a.clone(), b.clone()));
+			}
+		}
+	}
+}
+
+pub fn kind_name(v: &V) -> &'static str {
+	match v {
+		V::Null => "null",
+		V::Bool(_) => "bool",
+		V::Int(_) => "int",
+		V::Float(_) => "float",
+		V::Str(_) => "str",
+		V::Arr(_) => "array",
+		V::Map(_) => "map",
+		V::Bytes(_) => "bytes",
+		V::F32(_) => "f32",
+		V::Other(_) => "other",
+	}
+}
+
+/// A root-cause oriented name for one differing leaf.
+pub fn diff_class(got: &V, want: &V) -> String {
+	match (got, want) {
+		(V::Float(a), V::Float(b)) => {
+			let d = (*a as i128 - *b as i128).abs();
+			if d <= 4 {
+				format!("float-off-by-{d}-ulp")
+			} else {
+				"float-differs".into()
+			}
+		}
+		(V::Float(g), V::Str(s)) if f64::from_bits(*g).is_infinite() && overflowing_float_text(s) => "str-read-as-overflowing-float".into(),
+		(V::Str(_), V::Str(_)) => "string-differs".into(),
+		(V::Int(_), V::Int(_)) => "int-differs".into(),
+		(V::Arr(a), V::Arr(b)) if a.len() != b.len() => "array-length-differs".into(),
+		(V::Map(a), V::Map(b)) if a.len() != b.len() => "map-length-differs".into(),
+		(g, w) => format!("{}-became-{}", kind_name(w), kind_name(g)),
+	}
+}
+
+/// Text that the YAML 1.2 core schema resolves to a float whose value overflows binary64.
+pub fn overflowing_float_text(s: &str) -> bool {
+	match crate::yamlread::resolve_plain(s) {
+		V::Float(b) => f64::from_bits(b).is_infinite() && !s.to_ascii_lowercase().contains("inf"),
+		_ => false,
+	}
 }
